@@ -82,6 +82,11 @@ def generate(rng, prop, tier):
         plan.append({'a': a, 'how': rng.choice(['nswp', 'nswp', 'cb']) if kind != 'als_func' else 'nswp',
                      'perm': rng.randrange(1 << 30) if rng.random() < 0.5 else None,
                      'jump': rng.choice([0.0, 0.0, 1e5, -1e5])})
+    if rng.random() < 0.04 and sc.get('plan', 1) is not None:
+        # long jobs: more than ten sweeps in one call, split at a point that is no multiple of ten
+        a1 = rng.choice([3, 5, 7, 11, 12, 13])
+        plan = [{'a': a1, 'how': 'nswp', 'perm': None, 'jump': 0.0},
+                {'a': rng.randint(12, 22) - a1 if a1 < 10 else rng.randint(2, 9), 'how': 'nswp', 'perm': rng.randrange(1 << 30) if rng.random() < 0.3 else None, 'jump': 0.0}]
     if sc.get('plan', 1) is None:
         plan = plan[:2]
         for seg in plan:
